@@ -18,6 +18,9 @@ def _key(arr):
     for v in numpy.asarray(arr).flat:
         v = lift(v)
         for c in (v.re, v.im):
+            if not core.isconc(c) and ENGINE.canonical_uf_args:
+                c = core.canon_arg(c)       # polynomially equal integrands -> the same key
+                ENGINE.uf.setdefault("spline_keepalive", []).append(c)
             out.append(("q", c) if core.isconc(c) else ("z", c.get_id()))
     return tuple(out)
 
